@@ -2,7 +2,9 @@ package datadog
 
 import (
 	"errors"
+	"fmt"
 	"io"
+	"net/http"
 	"strings"
 	"time"
 
@@ -75,6 +77,9 @@ func (cfg *Config) VerifyConfig(schema base.LogSchema) error {
 		return errors.New("expected a valid datadog api address")
 	}
 
+	if _, err := http.NewRequest(http.MethodPost, cfg.Upstream.Address, nil); err != nil {
+		return fmt.Errorf("invalid datadog api address: %w", err)
+	}
 	if cfg.Upstream.HTTPTimeout == 0 {
 		return errors.New("expected a valid datadog api timeout")
 	}
